@@ -557,6 +557,14 @@ def run_resumable(binary, base_args, nshards, timeout, work, env=None, max_resta
                     if isinstance(c, dict) and "i" in c:
                         idx = c["i"]
                         break
+            if idx is None and not r["timed_out"]:
+                # sanitizer killed the process without a case marker (TSan SEGV): use the last progress record
+                prog = [x for x in r["recs"] if x.get("t") == "progress"]
+                m = re.search(r"(?:Thread|Address)Sanitizer: (SEGV|DEADLYSIGNAL|stack-overflow)[^\n]*", r["out"])
+                if prog and m:
+                    idx = prog[-1]["i"] + prog[-1].get("stride", 1)
+                    sm = re.search(r"SUMMARY: \w+Sanitizer: (\S+) \S+ in (.*)", r["out"])
+                    r["fatal"] = dict(kind=m.group(1), func=_short_fn(sm.group(2)) if sm else "?", index=prog[-1]["i"], tail=r["out"][-2500:])
             if r["timed_out"] or idx is None or idx <= skip:
                 r["unresumable"] = True
                 break
@@ -628,6 +636,9 @@ def collect_runs(v, results, case_label=None, judge_report=None):
                     key = "crash:sig%s:%s" % (c.get("sig"), fn)
                     what = "signal %s in %s while running %s" % (c.get("sig"), fn, label(cs))
                 v.violation(key, what, c)
+            if r.get("fatal"):
+                f = r["fatal"]
+                v.violation("crash:%s:%s" % (f["kind"].lower(), f["func"]), "the process died under the sanitizer (%s) in %s near case %s" % (f["kind"], f["func"], f["index"]), f)
             if r.get("unresumable"):
                 if r["timed_out"]:
                     v.add_inconclusive("shard %s hit the wall-clock watchdog" % r.get("shard"))
